@@ -223,6 +223,8 @@ def tval(x):
         return x.t
     if z3.is_expr(x) and x.sort() == Val:
         return x
+    if hasattr(x, "_vc_val"):
+        return x._vc_val()
     raise Unsupported(f"value expected, got {type(x).__name__}")
 
 
@@ -838,6 +840,8 @@ def vc_set(it=()):
 
 
 def vc_list(it=()):
+    if hasattr(it, "_vc_as"):
+        return it._vc_as(list)
     if isinstance(it, SSeq):
         return SSeq(it.n, it.at, list, it.name)
     if isinstance(it, SIter) and getattr(it, "_indexed", None) is not None:
@@ -1049,6 +1053,14 @@ def vc_range(*a):
     return SSeq(m, lambda i: SInt(i), tuple, "range")
 
 
+def vc_iter(o):
+    if hasattr(o, "_vc_as"):
+        return o  # an iterator over a symbolic list: consumed by list() / tuple()
+    if isinstance(o, Sym):
+        raise Unsupported(f"iter() of {type(o).__name__}")
+    return iter(o)
+
+
 def vc_type(o):
     if hasattr(o, "_vc_type"):
         return o._vc_type()
@@ -1058,6 +1070,8 @@ def vc_type(o):
 
 
 def vc_tuple(it=()):
+    if hasattr(it, "_vc_as"):
+        return it._vc_as(tuple)
     if isinstance(it, SSeq):
         return SSeq(it.n, it.at, tuple, it.name)
     if isinstance(it, SIter) and getattr(it, "_indexed", None) is not None:
